@@ -47,6 +47,8 @@ type Result struct {
 	First   []*key.Group // per node, the group of the first epoch (resharing runs)
 	Align   time.Duration
 	N1, T1  int // size and threshold of the first epoch
+	// Members: addresses the final group of the last epoch must consist of (nil: not recorded)
+	Members []string
 }
 
 func Run(c Cfg, pairs []*key.Pair, devs []vrt.Dev, labels bool) *Result {
@@ -91,7 +93,7 @@ func Run(c Cfg, pairs []*key.Pair, devs []vrt.Dev, labels bool) *Result {
 			}
 		}
 		n1 := c.N
-		if c.Reshare == "add" {
+		if c.Reshare == "add" || c.Reshare == "replace" {
 			n1 = c.N - 1
 		}
 		var parts []*pdkg.Participant
@@ -183,6 +185,22 @@ func Run(c Cfg, pairs []*key.Pair, devs []vrt.Dev, labels bool) *Result {
 						return
 					}
 				}
+			case "remove-first", "replace":
+				// the member with the smallest public key leaves (the indices of all others shift); with "replace" a new
+				// node joins at the same time
+				li := 0
+				if remaining[0].Address == leader.Part.Address {
+					li = 1
+				}
+				leaving = append(leaving, remaining[li])
+				remaining = append(append([]*pdkg.Participant{}, remaining[:li]...), remaining[li+1:]...)
+				if c.Reshare == "replace" {
+					joining = append(joining, nt.Nodes[c.N-1].Part)
+				}
+				t2 = key.MinimumT(len(remaining) + len(joining))
+				if len(remaining)+len(joining) < t1 || len(remaining) < t1 {
+					return // fewer old dealers than the old threshold cannot reshare
+				}
 			case "thr+":
 				if t1 < len(remaining) {
 					t2 = t1 + 1
@@ -191,6 +209,9 @@ func Run(c Cfg, pairs []*key.Pair, devs []vrt.Dev, labels bool) *Result {
 				if t1-1 >= key.MinimumT(len(remaining)) {
 					t2 = t1 - 1
 				}
+			}
+			for _, p := range append(append([]*pdkg.Participant{}, remaining...), joining...) {
+				res.Members = append(res.Members, p.Address)
 			}
 			if err := nt.Reshare(ctx, leader, remaining, joining, leaving, t2, clk.Now().Add(time.Hour)); err != nil {
 				res.Err = "reshare: " + err.Error()
@@ -301,6 +322,22 @@ func Judge(c Cfg, r *Result, prefix string) *explore.Exec {
 				fp = "transition-time-differs-under-clock-skew"
 			}
 			add(fp, "nodes %d and %d completed epoch %d with different group descriptions: %s", done[0], i, lastEpoch, d)
+		}
+	}
+	// the new group consists of exactly the remaining and the joining participants of the proposal
+	if r.Epochs == 2 && len(r.Members) > 0 {
+		want := map[string]bool{}
+		for _, a := range r.Members {
+			want[a] = true
+		}
+		for _, nd := range g0.Nodes {
+			if !want[nd.Address()] {
+				add("group-membership", "the final group lists %s, which is neither a remaining nor a joining participant of the resharing", nd.Address())
+			}
+			delete(want, nd.Address())
+		}
+		if len(want) > 0 && len(done) == len(r.Members) {
+			add("group-membership", "the final group misses %d participant(s) although everybody completed", len(want))
 		}
 	}
 	// shares lie on the group's public polynomial, at the index the group gives the node
